@@ -68,8 +68,12 @@ ConcEv == /\ Ev.t = "conc" /\ UNCHANGED <<subs, alive, seq, mo>>
                   THEN Fail("a connection received messages it should not have")
              ELSE Ok
 
+\* the member sent a well-formed reply or push that the protocol does not allow at that point (an acknowledgement for a
+\* subscription the command did not name, a message before the acknowledgement, ...)
+AnomalyEv == /\ Ev.t = "anomaly" /\ UNCHANGED <<subs, alive, seq, mo>>
+             /\ Fail("the member sent something the protocol does not allow here: " \o Ev.detail)
 TNext == /\ i <= Len(Trace) /\ i' = i + 1
-         /\ (Reset \/ SubEv \/ UnsubEv \/ UnsubAllEv \/ DiscEv \/ ReopenEv \/ PubEv \/ ChansEv \/ NumsubEv \/ NumpatEv \/ ConcEv)
+         /\ (Reset \/ AnomalyEv \/ SubEv \/ UnsubEv \/ UnsubAllEv \/ DiscEv \/ ReopenEv \/ PubEv \/ ChansEv \/ NumsubEv \/ NumpatEv \/ ConcEv)
          /\ UNCHANGED <<nops, log, gen>>
 TSpec == i = 1 /\ err = "" /\ seq = 0 /\ mo = <<>> /\ subs = {} /\ alive = {} /\ gen = <<>> /\ nops = 0 /\ log = <<>>
          /\ [][TNext]_<<tvars, vars>>
